@@ -369,7 +369,7 @@ func genPolys(rng *Rng, tier string) []poly {
 			}
 		}
 		// ---- absolute SCALE as a dimension (the property quantifies over all polygons; the library
-		// has absolute tolerances 1e-9): the same shapes multiplied by 1e-6 .. 1e-3 and 1e3 .. 1e6, so
+		// had absolute tolerances 1e-9 in its clipping): the same shapes multiplied by 1e-9 .. 1e-3 and 1e3 .. 1e6, so
 		// that edges and clipped pieces have lengths from 1e-7 up to 1e6 ...
 		shapes := []struct {
 			n string
@@ -381,7 +381,7 @@ func genPolys(rng *Rng, tier string) []poly {
 			{"comb5rot", rotate(comb(5, 0.3, 0.2, 2, 0.4), 0.7)},
 			{"arrow", []v2.Vec{{X: 0, Y: 0}, {X: 2, Y: 1}, {X: 0, Y: 2}, {X: 0.5, Y: 1}}},
 		}
-		scales := []float64{1e-6, 1e-5, 1e-4, 1e-3, 1e3, 1e4, 1e5, 1e6}
+		scales := []float64{1e-9, 1e-8, 1e-7, 1e-6, 1e-5, 1e-4, 1e-3, 1e3, 1e4, 1e5, 1e6}
 		for si, sc := range scales {
 			for hi, sh := range shapes {
 				if quick && (hi+si)%len(shapes) >= 2 {
@@ -569,7 +569,7 @@ func genNearSplit(rng *Rng, tier string) []poly {
 		b = boxes[rng.Intn(len(boxes))]
 		ps = append(ps, poly{name: fmt.Sprintf("nearsplit-lattice#%d", j), family: "nearsplit/lattice-loop", v: latticeLoop(rng, b[0], b[1], b[2], b[3], rng.Range(3, 24)), light: true})
 		b = boxes[rng.Intn(3)]
-		k := math.Pow(10, float64(rng.Range(-6, 6))) * rng.Uniform(1, 2)
+		k := math.Pow(10, float64(rng.Range(-9, 6))) * rng.Uniform(1, 2)
 		ps = append(ps, poly{name: fmt.Sprintf("nearsplit-scaled#%d*%.3g", j, k), family: "nearsplit/scaled", v: xform(nearSplitStar(rng, b[0], b[1], b[2], b[3], rng.Range(3, 16)), k, 0, 0), light: true})
 		if j%3 == 0 {
 			ps = append(ps, poly{name: fmt.Sprintf("egg#%d", j), family: "nearsplit/bezier-egg", v: egg(rng.Uniform(1, 13), rng.Uniform(1, 9), 4*float64(rng.Range(1, 6))), light: true})
@@ -1156,7 +1156,7 @@ func check(c *Ctx, r *Report) error {
 	r.Coverage["sign_disagreements"] = signDis
 	r.Coverage["value_disagreements"] = valDis
 	r.Coverage["clip_assignment_failures"] = certBad
-	r.Rule = "polygon families (stars incl. the two stars of the earlier repaired defects, convex, rectilinear with collinear/horizontal/vertical edges, combs, thin, 200-gons, shapes with vertices on the quadtree centre lines and with edges lying exactly ON centre and level-2 split lines; both orientations; dyadic, irrational and far-offset coordinates; absolute scale as a dimension: shapes multiplied by 1e-6..1e-3 and 1e3..1e6, facetted outlines with 500..2000 edges of 1e-5..1e-4 length; NEXT TO split lines: star-shaped polygons, staircases and closed lattice loops whose vertices lie 0, +-1..3 ulp, +-1e-12 .. +-2e-9, +-1e-7 from split lines and crossings of split lines of every level, nearly axis-parallel edges crossing many cells, edges through cell corners, at scales 1e-6..1e6, Bezier eggs like examples/bezier egg1) x query points = full grid {vertex and cut-point xs, every quadtree box edge and centre x, bounding box xs, far (10 and 1e6 sizes away)} x {same for y} (rows kept, columns subsampled above the tier's cap), one ulp above/below every vertex level, random points. Oracles per point: sign(quadtree) = sign(brute force) = exact crossing-number sign (rational arithmetic; skipped only where the exact distance is <= 1e-12*scale), | |fast|-|slow| | <= 1e-12 relative + 1e-13*scale, |value| vs exact distance (1e-12 relative + 1e-12*scale). non-trivial = every case; distinct by polygon hash and exact point bits."
+	r.Rule = "polygon families (stars incl. the two stars of the earlier repaired defects, convex, rectilinear with collinear/horizontal/vertical edges, combs, thin, 200-gons, shapes with vertices on the quadtree centre lines and with edges lying exactly ON centre and level-2 split lines; both orientations; dyadic, irrational and far-offset coordinates; absolute scale as a dimension: shapes multiplied by 1e-9..1e-3 and 1e3..1e6, facetted outlines with 500..2000 edges of 1e-5..1e-4 length; NEXT TO split lines: star-shaped polygons, staircases and closed lattice loops whose vertices lie 0, +-1..3 ulp, +-1e-12 .. +-2e-9, +-1e-7 from split lines and crossings of split lines of every level, nearly axis-parallel edges crossing many cells, edges through cell corners, at scales 1e-9..1e6, Bezier eggs like examples/bezier egg1) x query points = full grid {vertex and cut-point xs, every quadtree box edge and centre x, bounding box xs, far (10 and 1e6 sizes away)} x {same for y} (rows kept, columns subsampled above the tier's cap), one ulp above/below every vertex level, random points. Oracles per point: sign(quadtree) = sign(brute force) = exact crossing-number sign (rational arithmetic; skipped only where the exact distance is <= 1e-12*scale), | |fast|-|slow| | <= 1e-12 relative + 1e-13*scale, |value| vs exact distance (1e-12 relative + 1e-12*scale). non-trivial = every case; distinct by polygon hash and exact point bits."
 	r.Trusted = append(r.Trusted,
 		"hand model coq/Sdf/Poly.v tied by differential execution at FOps: the model of Mesh2D/qtBuild/lineIntersect/lineClip (math.Nextafter = C04Corr.fnextafter) rebuilds the dumped quadtree of every tested polygon bit for bit; eval_fast on the dumped tree and eval_slow on the segments reproduce Evaluate (sign exactly, value within fclose; absolute 2^-40*scale on the boundary)",
 		"quadtree dump hook sdf/verif_hooks_c04.go (copies the private fields)",
